@@ -444,7 +444,15 @@ for _k in ("VectorSum", "LinearCombination"):
 
 # kinds the LP extraction routines have no arm for: a degree <= 1 must never be reported for them
 for _k in ("L2Norm", "L1Norm", "VectorUnarySum", "ElementwiseUnary", "MatrixSum", "FrobeniusNorm", "VectorExpressionSum",
-           "DotProduct", "QuadraticForm", "VectorPowerSum", "ElementwisePower"):
+           "DotProduct", "QuadraticForm", "ElementwisePower"):
     @rule("syn", _k)
     def _(sp, r):
         sp.ip.path.assume(z3.Not(SYN(r)))
+
+
+@rule("syn", "VectorPowerSum")
+def _(sp, r):
+    # after the D24 repair the extraction routines have an arm for sum(x ** k) with k = 1 (sum of the variables) and k = 0
+    # (the constant len(x)); on the unrepaired tree these arms are missing and the clauses that use them are refuted
+    pw = FPOWER(r)
+    sp.ip.path.assume(SYN(r) == z3.Or(pw == 0, pw == 1))
